@@ -64,6 +64,7 @@ extern void (*ns_on_deliver)(const ns_dgram_t *d); /* just before a datagram is 
 extern void (*ns_raw_rx)(const ns_dgram_t *d);     /* delivery to an address without libcoap socket */
 
 /* ---- I/O servicing ---- */
+extern int ns_check_prepare; /* 1 (default): ns_prepare_all() checks the returned timeout against the send queue */
 unsigned ns_prepare_all(void); /* coap_io_prepare_io() on every context; min positive timeout in ms, 0 = none */
 extern unsigned ns_last_prepare[8]; /* per registered ctx: last value returned */
 
